@@ -159,6 +159,8 @@ pub struct Shared<G: AffineRepr> {
     /// value of every constraint under the tracked assignment, in creation order
     pub con_vals: Vec<FOf<G>>,
     pub n_explicit_con: usize,
+    /// every constraint as the harness spelled it: (variable, coefficient) terms and constant
+    pub cons: Vec<(Vec<(VK, usize, FOf<G>)>, FOf<G>)>,
     /// tracked (left, right, out) of every gate
     pub gates: Vec<(FOf<G>, FOf<G>, FOf<G>)>,
     pub pending: Option<usize>,
@@ -197,9 +199,10 @@ impl<G: AffineRepr> Shared<G> {
         }
     }
     /// universal linear combination over the variables allocated so far
-    fn lc(&mut self, phase2: bool, only_committed: bool) -> (LinearCombination<FOf<G>>, FOf<G>) {
+    fn lc(&mut self, phase2: bool, only_committed: bool) -> (LinearCombination<FOf<G>>, FOf<G>, Vec<(VK, usize, FOf<G>)>) {
         let mut lc = LinearCombination::default();
         let mut val = FOf::<G>::zero();
+        let mut terms = vec![];
         let vars: Vec<(Variable<FOf<G>>, FOf<G>)> = self
             .vars
             .iter()
@@ -212,19 +215,22 @@ impl<G: AffineRepr> Shared<G> {
             if skip > 0 && k != 0 && k <= skip {
                 continue;
             }
+            let (vk, vi) = vkey(var).unwrap();
             if let Some(c) = self.coef(phase2) {
                 lc = lc + *var * c;
                 val += c * x;
+                terms.push((vk, vi, c));
             }
             if k == 0 {
                 // repeated variable: the first variable occurs a second time
                 if let Some(c) = self.coef(phase2) {
                     lc = lc - *var * c;
                     val -= c * x;
+                    terms.push((vk, vi, -c));
                 }
             }
         }
-        (lc, val)
+        (lc, val, terms)
     }
     fn set_var(&mut self, var: Variable<FOf<G>>, val: FOf<G>) {
         let k = vkey(&var);
@@ -383,8 +389,8 @@ pub fn run_ops<G: AffineRepr, CS: RoleCS<G>>(cs: &mut CS, ops: &[Op], shr: &Rc<R
                 }
             }
             Op::Mul => {
-                let (lca, va) = sh.lc(phase2, false);
-                let (lcb, vb) = sh.lc(phase2, false);
+                let (lca, va, mut ta) = sh.lc(phase2, false);
+                let (lcb, vb, mut tb) = sh.lc(phase2, false);
                 let ca = sh.draw("k");
                 let cb = sh.draw("k");
                 let i = sh.gates.len();
@@ -405,15 +411,19 @@ pub fn run_ops<G: AffineRepr, CS: RoleCS<G>>(cs: &mut CS, ops: &[Op], shr: &Rc<R
                 // the two implicit constraints  lc - l_var = 0,  lc - r_var = 0
                 sh.con_vals.push(-gl);
                 sh.con_vals.push(-gr);
+                ta.push((VK::L, i, -FOf::<G>::one()));
+                tb.push((VK::R, i, -FOf::<G>::one()));
+                sh.cons.push((ta, ca));
+                sh.cons.push((tb, cb));
                 if sh.err.gate.iter().any(|(g, _)| *g == i) {
                     cs.role_set_gate(i, l, r, o);
                 }
             }
             Op::Con | Op::ConConst | Op::ConCommitted => {
-                let (lc, val) = match op {
+                let (lc, val, terms) = match op {
                     Op::Con => sh.lc(phase2, false),
                     Op::ConCommitted => sh.lc(phase2, true),
-                    _ => (LinearCombination::default(), FOf::<G>::zero()),
+                    _ => (LinearCombination::default(), FOf::<G>::zero(), vec![]),
                 };
                 let q = sh.n_explicit_con;
                 sh.n_explicit_con += 1;
@@ -425,6 +435,7 @@ pub fn run_ops<G: AffineRepr, CS: RoleCS<G>>(cs: &mut CS, ops: &[Op], shr: &Rc<R
                 let ca = sh.draw("k");
                 cs.constrain(LinearCombination::from(ca) + lc + LinearCombination::from(c - ca));
                 sh.con_vals.push(e);
+                sh.cons.push((terms, c));
             }
             Op::Msg(s) => {
                 cs.transcript().append_message(b"app-data", s.as_bytes());
@@ -493,6 +504,7 @@ pub fn new_shared<G: AffineRepr>(shape: &Shape, err: &ErrPlan, src: Box<dyn Vals
         verifier_commitments: vec![],
         con_vals: vec![],
         n_explicit_con: 0,
+        cons: vec![],
         gates: vec![],
         pending: None,
         chals: vec![],
@@ -550,6 +562,7 @@ pub fn rewind_for_verifier<G: AffineRepr>(shr: &Rc<RefCell<Shared<G>>>) {
     sh.vars.clear();
     sh.v.clear();
     sh.con_vals.clear();
+    sh.cons.clear();
     sh.n_explicit_con = 0;
     sh.gates.clear();
     sh.pending = None;
